@@ -184,34 +184,43 @@ Section Tails.
     | O => None
     | S k' =>
         match r with
-        | 93 :: r' => Some ([], r')
-        | 44 :: r' => match dec1 r' with
-                      | Some (x, r1) => match jlist_tail k' r1 with Some (xs, r2) => Some (x :: xs, r2) | None => None end
-                      | None => None
-                      end
-        | _ => None
+        | [] => None
+        | c :: r' =>
+            if c =? 93 then Some ([], r')
+            else if c =? 44 then
+              match dec1 r' with
+              | Some (x, r1) => match jlist_tail k' r1 with Some (xs, r2) => Some (x :: xs, r2) | None => None end
+              | None => None
+              end
+            else None
         end
     end.
   (* "key":value *)
   Definition jentry_dec (r : str) : option ((str * node) * str) :=
     match r with
-    | 34 :: r0 => match junq r0 with
-                  | Some (k, 58 :: r1) => match dec1 r1 with Some (v, r2) => Some ((k, v), r2) | None => None end
-                  | _ => None
-                  end
-    | _ => None
+    | [] => None
+    | q :: r0 =>
+        if q =? 34 then
+          match junq r0 with
+          | Some (k, c :: r1) => if c =? 58 then match dec1 r1 with Some (v, r2) => Some ((k, v), r2) | None => None end else None
+          | _ => None
+          end
+        else None
     end.
   Fixpoint jmap_tail (k : nat) (r : str) : option (list (str * node) * str) :=
     match k with
     | O => None
     | S k' =>
         match r with
-        | 125 :: r' => Some ([], r')
-        | 44 :: r' => match jentry_dec r' with
-                      | Some (e, r1) => match jmap_tail k' r1 with Some (es, r2) => Some (e :: es, r2) | None => None end
-                      | None => None
-                      end
-        | _ => None
+        | [] => None
+        | c :: r' =>
+            if c =? 125 then Some ([], r')
+            else if c =? 44 then
+              match jentry_dec r' with
+              | Some (e, r1) => match jmap_tail k' r1 with Some (es, r2) => Some (e :: es, r2) | None => None end
+              | None => None
+              end
+            else None
         end
     end.
 End Tails.
@@ -226,43 +235,53 @@ Definition special (m : list (str * node)) : option node :=
   | _ => Some (Map m)
   end.
 
+Definition word (w : str) (v : node) (s : str) : option (node * str) :=
+  if has_prefix w s then Some (v, skipn (length w) s) else None.
+
 Fixpoint jdec (fuel : nat) (s : str) : option (node * str) :=
   match fuel with
   | O => None
   | S f =>
       match s with
-      | 110 :: 117 :: 108 :: 108 :: r => Some (Null, r)
-      | 116 :: 114 :: 117 :: 101 :: r => Some (Bool true, r)
-      | 102 :: 97 :: 108 :: 115 :: 101 :: r => Some (Bool false, r)
-      | 34 :: r => match junq r with Some (t, r') => Some (Str t, r') | None => None end
-      | 91 :: r =>
-          match r with
-          | 93 :: r' => Some (List [], r')
-          | _ => match jdec f r with
-                 | Some (x, r1) => match jlist_tail (jdec f) (S (length r1)) r1 with
-                                   | Some (xs, r2) => Some (List (x :: xs), r2)
-                                   | None => None
-                                   end
-                 | None => None
-                 end
-          end
-      | 123 :: r =>
-          match r with
-          | 125 :: r' => Some (Map [], r')
-          | _ => match jentry_dec (jdec f) r with
-                 | Some (e, r1) => match jmap_tail (jdec f) (S (length r1)) r1 with
-                                   | Some (es, r2) => match special (e :: es) with Some n => Some (n, r2) | None => None end
-                                   | None => None
-                                   end
-                 | None => None
-                 end
-          end
-      | 45 :: r => match span_digits r with
-                   | ([], _) => None
-                   | (ds, r') => Some (Int (- Z.of_N (N_of_dec ds)), r')
-                   end
-      | c :: _ => if is_digit c then let '(ds, r') := span_digits s in Some (Int (Z.of_N (N_of_dec ds)), r') else None
       | [] => None
+      | c :: r =>
+          if c =? 110 then word (lit "null") Null s
+          else if c =? 116 then word (lit "true") (Bool true) s
+          else if c =? 102 then word (lit "false") (Bool false) s
+          else if c =? 34 then match junq r with Some (t, r') => Some (Str t, r') | None => None end
+          else if c =? 91 then
+            match r with
+            | [] => None
+            | c1 :: r' =>
+                if c1 =? 93 then Some (List [], r')
+                else match jdec f r with
+                     | Some (x, r1) => match jlist_tail (jdec f) (S (length r1)) r1 with
+                                       | Some (xs, r2) => Some (List (x :: xs), r2)
+                                       | None => None
+                                       end
+                     | None => None
+                     end
+            end
+          else if c =? 123 then
+            match r with
+            | [] => None
+            | c1 :: r' =>
+                if c1 =? 125 then Some (Map [], r')
+                else match jentry_dec (jdec f) r with
+                     | Some (e, r1) => match jmap_tail (jdec f) (S (length r1)) r1 with
+                                       | Some (es, r2) => match special (e :: es) with Some n => Some (n, r2) | None => None end
+                                       | None => None
+                                       end
+                     | None => None
+                     end
+            end
+          else if c =? 45 then
+            match span_digits r with
+            | ([], _) => None
+            | (ds, r') => Some (Int (- Z.of_N (N_of_dec ds)), r')
+            end
+          else if is_digit c then let '(ds, r') := span_digits s in Some (Int (Z.of_N (N_of_dec ds)), r')
+          else None
       end
   end.
 
